@@ -1568,7 +1568,7 @@ fn c14_shard(tier: &str, shard: usize, of: usize) -> i32 {
     let mut vios: Vec<crate::report::Violation> = vec![];
     let mut machinery: Option<String> = None;
     let mut samples: Vec<Value> = vec![];
-    let budget_s: u64 = std::env::var("VX_SHARD_WALL_S").ok().and_then(|s| s.parse().ok()).unwrap_or(cap_secs(if tier == "thorough" { 3000 } else { 45 }));
+    let budget_s: u64 = std::env::var("VX_SHARD_WALL_S").ok().and_then(|s| s.parse().ok()).unwrap_or(cap_secs(if tier == "thorough" { 3000 } else { 60 }));
     let deadline = std::time::Instant::now() + Duration::from_secs(budget_s);
     let mut skipped = 0u64;
     for (i, s) in specs.iter().enumerate() {
